@@ -739,7 +739,6 @@ Section InvR.
     rewrite (chi_squared_is_spec lnf f H), (noise_normalization_is_spec lnf tp f H), (regularization_term_is_spec iv HV).
     rops. lra.
   Qed.
-  Definition fit_inv_okb f : bool := match inversion f with Some iv => inv_okb iv | None => true end.
   Lemma figure_of_merit_is_spec f : fit_okb f = true -> fit_inv_okb f = true ->
     fit_figure_of_merit tp f = Some (s_figure_of_merit tp f).
   Proof.
@@ -760,4 +759,103 @@ Lemma evidence_present_iff_inversion {O : NumOps} (tp : T O) (f : fit (T O)) :
 Proof.
   unfold fit_log_evidence, fit_log_likelihood_with_regularization.
   destruct (inversion f); split; split; intros; try discriminate; reflexivity.
+Qed.
+
+(* ================================================================== 5. the statements exported by Props/C08.v *)
+Section Final.
+  Variable lnf : R -> R.
+  Notation O := (RL lnf).
+  Variable tp : T O.
+  Implicit Types (f : fit (T O)) (iv : inv (T O)).
+
+  Theorem maps_follow_definitions f : fit_okb f = true -> noise_positiveb f = true ->
+    fit_data f = map (s_data f) (seq 0 (length (data f))) /\
+    fit_residual_map f = per_pixel f (s_residual f) /\
+    fit_normalized_residual_map f = per_pixel f (s_normres f) /\
+    fit_chi_squared_map f = per_pixel f (s_chi f).
+  Proof.
+    intros H _. unfold per_pixel. repeat split; apply (map_seq_ext 0).
+    - apply fit_data_length. - intros i Hi. apply fit_data_nth. exact Hi.
+    - apply residual_length. exact H. - intros i Hi. apply residual_nth; assumption.
+    - apply normres_length. exact H. - intros i Hi. apply normres_nth; assumption.
+    - apply chimap_length. exact H. - intros i Hi. apply chimap_nth; assumption.
+  Qed.
+  Theorem statistics_follow_definitions f : fit_okb f = true -> noise_positiveb f = true ->
+    fit_chi_squared f = s_chi_squared f /\
+    fit_noise_normalization tp f = s_noise_normalization tp f /\
+    fit_log_likelihood tp f = s_log_likelihood tp f /\
+    fit_reduced_chi_squared f = (if Nat.eqb (length (fit_pixels f)) 0 then Raise OtherException
+                                 else Ok (s_chi_squared f / INR (length (fit_pixels f)))).
+  Proof.
+    intros H _. auto using chi_squared_is_spec, noise_normalization_is_spec, log_likelihood_is_spec,
+      reduced_chi_squared_is_spec.
+  Qed.
+  Theorem residual_flux_fraction_definition f : fit_okb f = true ->
+    length (fit_residual_flux_fraction_map f) = length (data f) /\
+    forall i, (i < length (data f))%nat ->
+      nth i (fit_residual_flux_fraction_map f) None =
+      if excluded f i then Some 0 else if Reqb (s_data f i) 0 then None else Some (s_residual f i / s_data f i).
+  Proof. intros H. split; [apply rff_length; exact H | intros i Hi; apply rff_nth; assumption]. Qed.
+  Theorem signal_to_noise_definition f : fit_okb f = true ->
+    length (fit_signal_to_noise_map f) = length (data f) /\
+    forall i, (i < length (data f))%nat -> 0 < at_ (noise f) i ->
+      nth i (fit_signal_to_noise_map f) None =
+      Some (if Rltb (s_data f i) 0 then 0 else s_data f i / at_ (noise f) i).
+  Proof. intros H. split; [apply snr_length; exact H | intros i Hi Hp; apply snr_nth; assumption]. Qed.
+
+  Theorem evidence_composition f iv :
+    fit_okb f = true -> noise_positiveb f = true -> inversion f = Some iv -> inv_okb iv = true ->
+    fit_log_evidence tp f = Some (s_log_evidence tp f iv) /\
+    fit_log_likelihood_with_regularization tp f = Some (s_log_likelihood_with_regularization tp f iv).
+  Proof. intros H _ HI HV. split; [apply log_evidence_is_spec | apply log_likelihood_with_regularization_is_spec]; assumption. Qed.
+  Theorem figure_of_merit_definition f : fit_okb f = true -> noise_positiveb f = true -> fit_inv_okb f = true ->
+    fit_figure_of_merit tp f = Some (match inversion f with Some iv => s_log_evidence tp f iv | None => s_log_likelihood tp f end).
+  Proof. intros H _ HV. apply figure_of_merit_is_spec; assumption. Qed.
+End Final.
+
+Theorem reduced_matrices_are_principal_submatrices {O : NumOps} (iv : inv (T O)) : inv_okb iv = true ->
+  regularization_matrix_reduced iv = tabulate (s_H iv) (reg_indices (objs iv)) /\
+  curvature_reg_matrix_reduced iv = tabulate (s_FH iv) (reg_indices (objs iv)) /\
+  reconstruction_reduced iv = map (at_ (recon iv)) (reg_indices (objs iv)).
+Proof.
+  intros H. split; [exact (regularization_matrix_reduced_is_principal iv H)|].
+  split; [exact (curvature_reg_matrix_reduced_is_principal iv H) | exact (reconstruction_reduced_is_restriction iv H)].
+Qed.
+
+(* ================================================================== 6. concrete inputs for the non-vacuity examples *)
+Section Examples.
+  Variable O : NumOps.
+  Let z := ofZ O.
+  (* three linear objects: 1 regularized parameter, 1 unregularized, 2 regularized *)
+  Definition ex_inv : inv (T O) :=
+    {| objs := [(1, true); (1, false); (2, true)]%nat;
+       blocks := [ [[z 2]]; []; [[z 2; z (-1)]; [z (-1); z 2]] ];
+       curv := [ [z 4; z 1; z 0; z 1]; [z 1; z 3; z 1; z 0]; [z 0; z 1; z 5; z 2]; [z 1; z 0; z 2; z 6] ];
+       recon := [z 1; z 5; z (-2); z 3] |}.
+  (* 2 x 2 native arrays, second pixel masked and carrying garbage [g1 g2 g3] *)
+  Definition ex_fit (g1 g2 g3 : T O) : fit (T O) :=
+    {| mask := [false; true; false; false]; use_mask := true; sky := z 1;
+       data := [z 3; g1; z (-1); z 5]; noise := [z 2; g2; z 1; z 4]; model := [z 1; g3; z 1; z 0];
+       inversion := Some ex_inv |}.
+End Examples.
+
+Lemma ex_hyps_R :
+  let f := ex_fit (RL ln) 99%R 0%R 1000%R in
+  fit_okb f = true /\ noise_positiveb f = true /\ fit_inv_okb f = true /\
+  inversion f = Some (ex_inv (RL ln)) /\ inv_okb (ex_inv (RL ln)) = true /\
+  fit_pixels f = [0; 2; 3]%nat /\ excluded f 1 = true /\
+  has_reg (objs (ex_inv (RL ln))) = true /\ all_have_reg (objs (ex_inv (RL ln))) = false /\
+  reg_indices (objs (ex_inv (RL ln))) = [0; 2; 3]%nat.
+Proof.
+  cbv zeta. repeat split; try (lazy; reflexivity).
+  unfold noise_positiveb. change (fit_pixels (ex_fit (RL ln) 99 0 1000)) with [0; 2; 3]%nat.
+  unfold at_, ex_fit. cbn [forallb noise nth]. rops.
+  rewrite !(proj2 (Rltb_true _ _)) by lra. reflexivity.
+Qed.
+Lemma ex_hyps_masked :
+  agree_on_unmasked (ex_fit QOps (99#1)%Q (0#1)%Q (1000#1)%Q) (ex_fit QOps (-7#1)%Q (1#2)%Q (3#1)%Q) /\
+  ex_fit QOps (99#1)%Q (0#1)%Q (1000#1)%Q <> ex_fit QOps (-7#1)%Q (1#2)%Q (3#1)%Q.
+Proof.
+  split; [unfold agree_on_unmasked; cbn; repeat split|].
+  intros E. apply (f_equal (fun f => nth 1 (data f) (0#1)%Q)) in E. cbn in E. discriminate E.
 Qed.
